@@ -101,7 +101,9 @@ func ParseLines(r io.Reader) ([]Line, string, error) {
 	scanner := bufio.NewScanner(r)
 	scanner.Split(splitter.ScanLines)
 	for scanner.Scan() {
-		text := strings.TrimSpace(scanner.Text())
+		// Like Git, skip only the blanks that separate fields: other
+		// white space, such as U+3000, may be part of a pattern.
+		text := strings.Trim(scanner.Text(), " \t\r\n")
 		if len(text) == 0 {
 			continue
 		}
